@@ -97,6 +97,13 @@ fn isolation(thorough: bool, rep: &mut Report) -> (u64, u64) {
     ];
     if thorough {
         setups.push(vec![(ep(1, false), 1, p1.clone()), (ep(2, false), 1, p2.clone()), (ep(1, false), 2, p3.clone())]);
+        // four sessions (all three ways of differing: endpoint, TSI, source address), short streams
+        let (p4, _) = record_session(1, 4, 6);
+        setups.push(vec![(ep(1, false), 1, p1[..3].to_vec()), (ep(2, false), 1, p2[..3].to_vec()), (ep(1, false), 2, p3[..2].to_vec()), (ep(1, true), 1, p4.clone())]);
+        // two long sessions with equal TSI (FDT + 7 object packets each)
+        let (q1, _) = record_session(1, 11, 27);
+        let (q2, _) = record_session(1, 12, 26);
+        setups.push(vec![(ep(1, false), 1, q1), (ep(2, false), 1, q2)]);
     } else {
         setups.push(vec![(ep(1, false), 1, p1[..2].to_vec()), (ep(2, false), 1, p2[..3].to_vec()), (ep(1, false), 2, p3.clone())]);
     }
@@ -340,9 +347,17 @@ pub fn run_listener(hist: &[LEv], deviations: &[u64]) -> (Option<(String, String
         let mut now = t0();
         let mut id = 1u32;
         let mut out: Option<(String, String)> = None;
+        // reference model of expiry (only meaningful without clock-read deviations): seconds on the
+        // virtual monotonic clock, last packet per session, believed-open flag
+        let exact_clock = deviations.is_empty();
+        let mut t_s = 0u64;
+        let mut last_pkt = [0u64; 2];
+        let mut open = [false; 2];
         for (step, ev) in hist.iter().enumerate() {
             match ev {
                 LEv::Data(s) => {
+                    last_pkt[*s as usize] = t_s;
+                    open[*s as usize] = true;
                     id += 1;
                     let (e, tsi) = &sessions[*s as usize];
                     let _ = rx.push(e, &probe_packet(*tsi, id), now);
@@ -353,6 +368,7 @@ pub fn run_listener(hist: &[LEv], deviations: &[u64]) -> (Option<(String, String
                     }
                 }
                 LEv::Close(s) => {
+                    open[*s as usize] = false;
                     let (e, tsi) = &sessions[*s as usize];
                     // the close-session packet flute's own sender side builds
                     let pkt = flute::verif::new_alc_pkt_close_session(&0u128, *tsi);
@@ -366,6 +382,23 @@ pub fn run_listener(hist: &[LEv], deviations: &[u64]) -> (Option<(String, String
                     flute::verif::clock_advance(Duration::from_secs(3));
                     now += Duration::from_secs(3);
                     rx.cleanup(now);
+                    t_s += 3;
+                    for si in 0..2 {
+                        if !open[si] || !exact_clock {
+                            continue;
+                        }
+                        let (e, tsi) = &sessions[si];
+                        let w = word(&l2.borrow(), e, *tsi);
+                        let idle = t_s - last_pkt[si];
+                        if idle > 5 {
+                            open[si] = false;
+                            if out.is_none() && w.ends_with('o') {
+                                out = Some(("C18/listener/idle-session-not-closed-by-cleanup".into(), format!("after step {} (cleanup): session {} has been idle for {} s with session_timeout 5 s but no close event was delivered (events {:?})", step, si, idle, w)));
+                            }
+                        } else if out.is_none() && !w.ends_with('o') {
+                            out = Some(("C18/listener/session-closed-before-its-timeout".into(), format!("after step {} (cleanup): session {} idle for {} s only (session_timeout 5 s) but its events are {:?}", step, si, idle, w)));
+                        }
+                    }
                 }
             }
         }
@@ -444,13 +477,13 @@ pub fn run(thorough: bool) -> i32 {
     // (1)
     let (n_iso, d_iso) = isolation(thorough, &mut rep);
     // (2)
-    let depth = if thorough { 5 } else { 4 };
-    let (st, found) = bfs(FSys::new, depth, 2_000_000);
+    let depth = if thorough { 7 } else { 4 };
+    let (st, found) = bfs(FSys::new, depth, 4_000_000);
     for f in found {
         rep.add(Violation { key: f.sig, what: f.what, case: json!({"check": "filter", "case": {"history": f.history}}) });
     }
     // (3)
-    let len = if thorough { 6 } else { 5 };
+    let len = if thorough { 7 } else { 5 };
     let alphabet = [LEv::Data(0), LEv::Data(1), LEv::Close(0), LEv::Close(1), LEv::TickCleanup];
     let mut hists: Vec<Vec<LEv>> = vec![vec![]];
     let mut all: Vec<Vec<LEv>> = Vec::new();
